@@ -776,7 +776,11 @@
            ((not to)
             (reverse (cons `(* ,sre) res)))
            ((= from to)
-            (reverse (cons sre (cdr res))))
+            (if (zero? from)
+                ;; no repetition at all: the empty string, with the
+                ;; submatches of sre still numbered (and never matched)
+                `(? (: ,sre (or)))
+                (reverse (cons sre (cdr res)))))
            (else
             (let lp ((i (+ i 1)) (res res))
               (if (>= i to)
